@@ -298,9 +298,110 @@ def r09_e(prog: Program, chk: Check) -> None:
     )
 
 
+# ------------------------------------------------------------------- R09.f
+def _scope_chunk(args):
+    part, nparts, step = args
+    import ast as _ast
+
+    from ..model import Program as _P
+    from . import scope_model as smod
+
+    model = smod.ScopeModel(_P())
+    n = 0
+    classes: Dict[str, Dict[str, object]] = {}
+
+    def note(key: str, bad: bool, detail) -> None:
+        c = classes.setdefault(key, {"n": 0, "bad": 0, "witness": []})
+        c["n"] += 1  # type: ignore[operator]
+        if bad:
+            c["bad"] += 1  # type: ignore[operator]
+            w = c["witness"]
+            w.append(detail)  # type: ignore[union-attr]
+            w.sort(key=lambda d: (len(d["function"]), repr(d)))  # type: ignore[union-attr]
+            del w[3:]  # type: ignore[arg-type]
+
+    def features(tree) -> set:
+        f = set()
+        for x in _ast.walk(tree):
+            if isinstance(x, _ast.Try) and x.finalbody and any(isinstance(y, (_ast.Break, _ast.Continue, _ast.Return)) for blk in (x.body, x.handlers, x.orelse) for st in blk for y in _ast.walk(st)):
+                f.add("abrupt-exit-through-finally")
+            if isinstance(x, (_ast.While, _ast.For)) and any(isinstance(y, _ast.Break) for st in x.body for y in _ast.walk(st)):
+                f.add("loop-with-break")
+        return f
+
+    for idx, src in enumerate(smod.programs(step)):
+        if idx % nparts != part:
+            continue
+        fn = _ast.parse(src).body[0]
+        rep = model.reported(fn)
+        if not isinstance(rep, dict):
+            note("no-crash", True, {"function": src, "error": rep[1]})
+            continue
+        note("no-crash", False, {"function": src})
+        strict = smod.Reaching(False).run(fn)
+        lib_an = smod.Reaching(True)
+        liberal = lib_an.run(fn)
+        assigned = {t.id for x in _ast.walk(fn) for t in ([x.targets[0]] if isinstance(x, _ast.Assign) else [x.target] if isinstance(x, _ast.For) else [])}
+        feats = features(fn)
+        for u in [x for x in _ast.walk(fn) if isinstance(x, _ast.Name) and isinstance(x.ctx, _ast.Load) and x.id in assigned]:
+            lib = liberal.get(id(u), set())
+            if not lib:
+                continue  # unreachable use
+            n += 1
+            r = rep.get(id(u)) or {smod.UNINIT}  # no recorded definition: the name is unbound there
+            stc = strict.get(id(u), set())
+            d = {"function": src, "use": f"{u.id} at line {u.lineno}", "recorded": sorted(r), "strict": sorted(stc), "liberal": sorted(lib)}
+            miss_key = "abrupt-exit-through-finally" if "abrupt-exit-through-finally" in feats else "other"
+            note(f"every definition that reaches the use along a path is recorded (strict subset)::{miss_key}", not stc <= r, d)
+            extra = r - lib
+            if extra and all(not e.startswith("for:") and e != smod.UNINIT and e not in lib_an.executed for e in extra):
+                extra_key = "definition-in-unreachable-code"
+            else:
+                extra_key = "definition-on-a-break-path" if "loop-with-break" in feats else "other"
+            note(f"nothing is recorded that reaches the use along no path (liberal superset)::{extra_key}", not r <= lib, d)
+            note("the unbound state is recorded iff some path leaves the name unbound", (smod.UNINIT in r) != (smod.UNINIT in stc) and not ((smod.UNINIT in r) and (smod.UNINIT in lib)) and not (miss_key != "other" or extra_key != "other"), d)
+    return n, classes
+
+
+def r09_f(prog: Program, chk: Check) -> None:
+    import multiprocessing as mp
+    import os as _os
+
+    step = 9 if _os.environ.get("VERIF_SELFTEST") else 1 if chk.tier == "thorough" else 3
+    chk.rule(
+        "R09.f",
+        "reaching definitions as a finite model: visit_If / visit_While / visit_For / _handle_loop_else / visit_Try / visit_try_except / visit_Break / visit_Continue and the scope "
+        "machinery (FunctionScope.set / get_local / subscope / loop_scope / suppressing_subscope / get_combined_scope / combine_subscopes, Scope.get, StackedScopes) are interpreted "
+        "from their AST in the collecting phase on generated function bodies (assignments of distinct literals, uses, if / while / while True / for with else, break, continue, return, "
+        "try / except / else / finally, nested one level); for every reachable use of a local the recorded definitions lie between the strict and the liberal reaching-definitions "
+        "sets of an independent analysis, as the property defines them",
+        floor=4,
+    )
+    procs = 2 if _os.environ.get("VERIF_SELFTEST") else min(16, _os.cpu_count() or 1)
+    with mp.get_context("fork").Pool(procs) as pl:
+        results = pl.map(_scope_chunk, [(i, procs * 2, step) for i in range(procs * 2)])
+    total = 0
+    merged: Dict[str, Dict[str, object]] = {}
+    for n, classes in results:
+        total += n
+        for k, c in classes.items():
+            m = merged.setdefault(k, {"n": 0, "bad": 0, "witness": []})
+            m["n"] += c["n"]  # type: ignore[operator]
+            m["bad"] += c["bad"]  # type: ignore[operator]
+            m["witness"] = sorted(list(m["witness"]) + list(c["witness"]), key=lambda d: (len(d["function"]), repr(d)))[:3]  # type: ignore[arg-type]
+    chk.model_evaluations += total
+    chk.analysed["scope_model"] = {"uses_compared": total}
+    site = prog.site("stacked_scopes", prog.func("stacked_scopes", "FunctionScope.get_combined_scope"))
+    for k, c in sorted(merged.items()):
+        wit = c["witness"]
+        chk.ob("R09.f", f"stacked_scopes::scope-model::{k}", int(c["bad"]) == 0, site,  # type: ignore[arg-type]
+               f"{c['n']} cases, {c['bad']} failing" + (f"; smallest: {wit[0]}" if wit else ""), witness=wit)  # type: ignore[index]
+
+
 def run(prog: Program, chk: Check) -> None:
     guard(chk, r09_e, prog, chk)
     guard(chk, r09_a, prog, chk)
     guard(chk, r09_b, prog, chk)
     guard(chk, r09_c, prog, chk)
     guard(chk, r09_d, prog, chk)
+    guard(chk, r09_f, prog, chk)
